@@ -11,18 +11,34 @@ SPEC = dict(
          'After every operation the records around the touched position and 3 random records are re-validated (stored iterator -> recorded addresses, registry-live elements with the recorded ids, '
          '++/-- reach the neighbours\' stored iterators, find(key) returns the stored iterator); full sweeps of both containers every 37 operations, at small populations, after swap / clear / bulk '
          'operations and whenever a non-inserting operation copied a tracked element. swap must construct and destroy nothing and the other container must then own the same addresses. '
-         'PoolList/PoolMap hold non-copyable types that remember their construction address: exactly one construction per append, at the returned address, none elsewhere.',
+         'PoolList/PoolMap hold non-copyable types that remember their construction address: exactly one construction per append, at the returned address, none elsewhere. '
+         'Job reentrant (case i works on container type i % 7; 150..900 operations, population <= 40): the same ledger over re-entrant element types - three out of four removals '
+         '(remove(iterator) / remove(key) / remove(value) / removeFront / removeBack) arm one destructor of the dying entry to insert a new key, re-insert the dying key or remove another entry '
+         'of the same container (nested operations from element *constructors* are deliberately not armed, see assumptions); the element stored by the nested operation '
+         'must not be constructed inside the object whose destructor is still running (first member of every re-entrant type checks that, the Elem registry backs it up) and both '
+         'containers are swept after every such operation.',
     assumptions=['ASan/UBSan + LeakSanitizer; library ASSERTs enabled (-DDEBUG)',
                  'List::sort is outside the statement (it is neither an insertion nor a removal and exchanges values between nodes); it is not part of the histories',
                  'a hinted insert of an equal key into a MultiMap may land anywhere in its run of equal keys; MultiMap::find/remove(key) may pick any equal entry',
-                 'the library clients named by the property (Server pools, thread-pool contexts, Callback slot lists) are exercised by C14/C10/C12'],
+                 'the library clients named by the property (Server pools, thread-pool contexts, Callback slot lists) are exercised by C14/C10/C12',
+                 're-entrant elements: only what the unchanged library supports is exercised - nested operations from the destructor of the one entry a single removal destroys (all seven '
+                 'containers unlink the node before and release it after the destructor). Not promised and never armed: element constructors (five of the seven containers of the unchanged '
+                 'library construct in the head node of the free list and pop it afterwards, so a nested insertion from a constructor would get the same node; seeded change C05-B4, which makes '
+                 'HashMap do the same, is therefore judged not to violate the property), destructors run by clear() / container destruction / assignment, nested '
+                 'removal of the position argument or of the dying entry, the iterator returned by a removal whose destructor changed the container'],
     technique='runtime monitoring: address/iterator ledger per element + tracked non-copyable element types + sanitizers over long generated histories',
     exhaustive={Q: False, T: False},
     jobs=[job(t, 'h_stable', t, cases={Q: 2000, T: 16000}, procs=2, timeout=900) for t in _TYPES] +
-         [job(t + '-long', 'h_stable', t + '-long', cases={Q: 40, T: 800}, procs=2, timeout=900) for t in _TYPES],     # mode <type>-long: histories 8 times as long (2400..24000 operations)
+         [job(t + '-long', 'h_stable', t + '-long', cases={Q: 40, T: 800}, procs=2, timeout=900) for t in _TYPES] +    # mode <type>-long: histories 8 times as long (2400..24000 operations)
+         [job('reentrant', 'h_stable', 'reentrant', cases={Q: 1400, T: 14000}, procs=2, timeout=900)],                 # mode reentrant: case i works on container type i % 7
+    # reentrant_classes = <removal entry point>/<what the destructor does> (84 today)
     # block_allocations depends on the library's items-per-block tuning constant (4 today: ~500000 observed in quick): the floor leaves room for blocks up to ~64 items
     floors={Q: dict(ops=6000000, address_checks=85000000, iterator_checks=37000000, lookups=30000000, full_sweeps=5000000, swaps=125000, entries_tracked=2700000, block_allocations=22000,
-                    free_slot_reuses=1800000, root_changes=170000, population_turns=60000, max_ops_survived=2500, **{'set:op_classes': 95}),
+                    free_slot_reuses=1800000, root_changes=170000, population_turns=60000, max_ops_survived=2500,
+                    nested_ops_from_destructor=120000, nested_insertions=60000, nested_reinsertions_of_dying_key=40000, nested_removals=30000,
+                    **{'set:op_classes': 95, 'set:reentrant_classes': 80}),
             T: dict(ops=120000000, address_checks=1800000000, iterator_checks=800000000, lookups=600000000, full_sweeps=100000000, swaps=2600000, entries_tracked=50000000, block_allocations=440000,
-                    free_slot_reuses=34000000, root_changes=3400000, population_turns=1100000, max_ops_survived=6000, **{'set:op_classes': 95})},
+                    free_slot_reuses=34000000, root_changes=3400000, population_turns=1100000, max_ops_survived=6000,
+                    nested_ops_from_destructor=1200000, nested_insertions=600000, nested_reinsertions_of_dying_key=400000, nested_removals=300000,
+                    **{'set:op_classes': 95, 'set:reentrant_classes': 80})},
 )
